@@ -363,6 +363,10 @@ def ruleR (p : Option PluginObs) (ow : Bool) (nw : New) : Except Err (Option Tex
 def mkStep (e : Err) (ex nw : Option Text) (R : List PluginObs) : StepObs :=
   ⟨e, ex, nw, R, R.map (·.name)⟩
 
+/-- a directory after its `notation-<name>` was deleted: nothing to fetch -/
+def rmexeObs (n : Text) (p : PluginObs) : PluginObs :=
+  if p.name == n then ⟨p.name, delBy FileObs.name (binName n) p.files, none⟩ else p
+
 /-- one operation, computed from the observed root only -/
 def specStep (R : List PluginObs) (op : Op) : StepObs :=
   match op.kind with
@@ -370,7 +374,7 @@ def specStep (R : List PluginObs) (op : Op) : StepObs :=
     match specNew op with
     | none => mkStep .other none none R
     | some nw =>
-      match ruleR (lookupR R nw.name) op.overwrite nw with
+      match ruleR (existingR R nw.name) op.overwrite nw with
       | .error e => mkStep e none none R
       | .ok ex =>
         mkStep .ok ex (some nw.version) (putBy PluginObs.name (newObs nw) (delBy PluginObs.name nw.name R))
@@ -378,13 +382,15 @@ def specStep (R : List PluginObs) (op : Op) : StepObs :=
     if !validName op.name then mkStep .other none none R
     else if (lookupR R op.name).isSome then mkStep .ok none none (delBy PluginObs.name op.name R)
     else mkStep .notExist none none R
+  | .plant =>
+    if !validName op.name then mkStep .ok none none R
+    else mkStep .ok none none
+      (putBy PluginObs.name (pobs ⟨op.name, topFiles op.entries⟩) (delBy PluginObs.name op.name R))
+  | .rmexe => mkStep .ok none none (R.map (rmexeObs op.name))
 
 def specRun : List PluginObs → List Op → List StepObs
   | _, [] => []
   | R, op :: ops => specStep R op :: specRun (specStep R op).root ops
-
-/-- every installed plugin can be fetched and answers -/
-def Inv (st : State) : Prop := ∀ p ∈ st, (answer p).isSome = true
 
 theorem pobs_name (p : Plugin) : (pobs p).name = p.name := rfl
 
@@ -392,8 +398,21 @@ theorem lookupR_observe (st : State) (n : Text) :
     lookupR (observe st) n = (findBy Plugin.name n st).map pobs :=
   findBy_map Plugin.name PluginObs.name pobs pobs_name n st
 
-theorem versionRule_eq {st : State} (hi : Inv st) (ow : Bool) {nw : New} (hv : validName nw.name = true) :
-    versionRule st ow nw = ruleR (lookupR (observe st) nw.name) ow nw := by
+theorem fobs_name (f : File) : (fobs f).name = f.name := rfl
+
+theorem hasExe_pobs (p : Plugin) :
+    hasExe (pobs p) = (findBy File.name (binName p.name) p.files).isSome := by
+  unfold hasExe pobs findBy
+  simp only [List.any_map]
+  induction p.files with
+  | nil => rfl
+  | cons f r ih =>
+    simp only [List.any_cons, List.find?_cons, Function.comp, fobs_name]
+    cases f.name == binName p.name <;> simp [ih]
+
+theorem versionRule_eq (st : State) (ow : Bool) {nw : New} (hv : validName nw.name = true) :
+    versionRule st ow nw = ruleR (existingR (observe st) nw.name) ow nw := by
+  unfold existingR
   rw [lookupR_observe]
   unfold versionRule getExe ruleR
   simp only [hv, Bool.not_true, Bool.false_eq_true, if_false]
@@ -401,16 +420,13 @@ theorem versionRule_eq {st : State} (hi : Inv st) (ow : Bool) {nw : New} (hv : v
   | none => simp
   | some p =>
     obtain ⟨hmem, hname⟩ := findBy_some Plugin.name hf
-    have ha := hi p hmem
-    simp only [answer, hname, hv, Bool.not_true, Bool.false_eq_true, if_false] at ha
+    simp only [Option.map_some, hasExe_pobs, hname]
     cases hx : findBy File.name (binName nw.name) p.files with
-    | none => rw [hx] at ha; simp at ha
+    | none => simp
     | some f =>
-      rw [hx] at ha
-      simp only [Option.bind_some] at ha
       have hpv : (pobs p).version = metadata nw.name f := by
         simp [pobs, answer, hname, hv, hx]
-      simp only [Option.map_some, hpv, hx]
+      simp [hpv]
 
 theorem observe_replace {op : Op} {nw : New} (h : specNew op = some nw) (st : State) :
     observe (replace st nw) =
@@ -420,61 +436,83 @@ theorem observe_replace {op : Op} {nw : New} (h : specNew op = some nw) (st : St
   congr 1
   simp [pobs, newObs, answer_new h]
 
-theorem inv_replace {op : Op} {nw : New} (h : specNew op = some nw) {st : State} (hi : Inv st) :
-    Inv (replace st nw) := by
-  intro p hp
-  rcases mem_putBy Plugin.name hp with rfl | hp
-  · rw [answer_new h]; rfl
-  · exact hi p (List.mem_filter.1 hp).1
-
-theorem inv_delBy {st : State} (hi : Inv st) (n : Text) : Inv (delBy Plugin.name n st) :=
-  fun p hp => hi p (List.mem_filter.1 hp).1
-
 theorem newOf_valid {op : Op} {l : Option Located} {nw : New} (h : newOf op l = some nw) :
     validName nw.name = true := by
   obtain ⟨loc, _, hv, _, hn, _⟩ := newOf_some h
   rw [hn]; exact hv
 
-/-- one step of the model = the observable-level step, and the invariant is kept -/
-theorem step_eq_spec {st : State} (hi : Inv st) (op : Op) :
-    stepObs st op = specStep (observe st) op ∧ Inv (step st op).2 ∧
+theorem pobs_rmexe (n : Text) (p : Plugin) :
+    pobs (if p.name == n then { p with files := delBy File.name (binName n) p.files } else p) =
+      rmexeObs n (pobs p) := by
+  unfold rmexeObs
+  by_cases h : (p.name == n) = true
+  · have hn : p.name = n := by simpa using h
+    simp only [h, if_true, pobs_name]
+    simp only [pobs, map_delBy File.name FileObs.name fobs fobs_name]
+    congr 1
+    simp only [answer, hn]
+    split
+    · rfl
+    · rw [findBy_delBy_self]; rfl
+  · simp only [h, pobs_name]; rfl
+
+/-- one step of the model = the observable-level step -/
+theorem step_eq_spec (st : State) (op : Op) :
+    stepObs st op = specStep (observe st) op ∧
       observe (step st op).2 = (specStep (observe st) op).root := by
   unfold stepObs step specStep
   cases hk : op.kind with
   | install =>
     simp only [install, locate_eq_spec]
-    show _ ∧ _ ∧ _
+    show _ ∧ _
     cases hn : specNew op with
     | none =>
       have : newOf op (specLocate op) = none := hn
-      simp [this, mkStep, hi]
+      simp [this, mkStep]
     | some nw =>
       have hn' : newOf op (specLocate op) = some nw := hn
       simp only [hn']
-      rw [versionRule_eq hi op.overwrite (newOf_valid hn')]
-      cases hr : ruleR (lookupR (observe st) nw.name) op.overwrite nw with
-      | error e => simp [mkStep, hi]
-      | ok ex => simp [mkStep, observe_replace hn, inv_replace hn hi]
+      rw [versionRule_eq st op.overwrite (newOf_valid hn')]
+      cases hr : ruleR (existingR (observe st) nw.name) op.overwrite nw with
+      | error e => simp [mkStep]
+      | ok ex => simp [mkStep, observe_replace hn]
   | uninstall =>
     simp only [uninstall]
     by_cases hv : validName op.name = true
     · simp only [hv, Bool.not_true, Bool.false_eq_true, if_false]
       rw [lookupR_observe]
       cases hf : findBy Plugin.name op.name st with
-      | none => simp [mkStep, hi]
+      | none => simp [mkStep]
       | some p =>
-        simp [mkStep, inv_delBy hi, observe, map_delBy Plugin.name PluginObs.name pobs pobs_name]
-    · simp [hv, mkStep, hi]
+        simp [mkStep, observe, map_delBy Plugin.name PluginObs.name pobs pobs_name]
+    · simp [hv, mkStep]
+  | plant =>
+    simp only [plant]
+    by_cases hv : validName op.name = true
+    · simp [hv, mkStep, observe, map_putBy Plugin.name PluginObs.name pobs pobs_name,
+        map_delBy Plugin.name PluginObs.name pobs pobs_name]
+    · simp [hv, mkStep]
+  | rmexe =>
+    simp only [rmexe]
+    have : observe (List.map (fun p => if (p.name == op.name) = true then
+        { p with files := delBy File.name (binName op.name) p.files } else p) st) =
+        (observe st).map (rmexeObs op.name) := by
+      simp only [observe, List.map_map]
+      apply List.map_congr_left
+      intro p _
+      exact pobs_rmexe op.name p
+    simp only [mkStep, this]
+    simp
 
-theorem runOps_eq_spec : ∀ (ops : List Op) {st : State}, Inv st →
+theorem runOps_eq_spec : ∀ (ops : List Op) (st : State),
     runOps st ops = specRun (observe st) ops := by
   intro ops
   induction ops with
-  | nil => intro st _; rfl
+  | nil => intro st; rfl
   | cons op ops ih =>
-    intro st hi
-    obtain ⟨h1, h2, h3⟩ := step_eq_spec hi op
+    intro st
+    obtain ⟨h1, h3⟩ := step_eq_spec st op
     simp only [runOps, specRun]
-    rw [h1, ih h2, h3]
+    rw [h1, ih, h3]
 
 end NotationModel.C20
